@@ -12,10 +12,24 @@
    the property checker passed. *)
 open Maxi_model
 
+(* Observed numbers may exceed OCaml's 63-bit int (e.g. a sign-extended row index printed as a u64): a decimal
+   string too large for `int` saturates to max_int / min_int, so that it is judged as an out-of-range answer
+   (PROPFAIL) instead of aborting the case with an exception (which would only be a DIFF). *)
+let int_of_string s =
+  try Stdlib.int_of_string s with Failure _ ->
+    let n = String.length s in
+    let st = if n > 0 && s.[0] = '-' then 1 else 0 in
+    let ok = ref (n > st) in
+    String.iteri (fun i ch -> if i >= st && not (ch >= '0' && ch <= '9') then ok := false) s;
+    if !ok then (if st = 1 then min_int else max_int) else failwith ("int_of_string: " ^ s)
+
 (* unary naturals are shared through a growing table: nat (n+1) = S (nat n), so that long
    lists of coordinates / offsets cost one word per distinct number *)
 let nat_tbl = ref [| O |]
+let nat_cap = 5_000_000   (* above every legitimate row, column, offset (65537 rows x 64 columns); an observed
+                              number beyond it is out of range for every matrix the harness builds and is judged so *)
 let nat_of_int n =
+  let n = if n > nat_cap then nat_cap else n in
   if n <= 0 then O else begin
     let len = Array.length !nat_tbl in
     if n >= len then begin
